@@ -159,7 +159,7 @@ func NewWorld(dir string) *World {
 // Menu is the ordered alphabet of transaction names (simplest first).
 var Menu = []string{
 	"xfer", "xfer-new", "xfer-self", "call-selfpay", "call-counter", "call-revert", "call-invalid", "call-forward", "call-fwdrevert", "call-destruct", "call-burn",
-	"create-ok", "create-revert", "create-oog", "vote-d0", "vote-c1", "register-u1-poor", "topup-c1", "unregister-c1",
+	"create-ok", "create-revert", "create-oog", "create-oog-deposit", "vote-d0", "vote-c1", "register-u1-poor", "topup-c1", "unregister-c1",
 	"asset-issue", "asset-replenish", "asset-freeze", "asset-transfer", "multisig-xfer", "multisig-reset", "payer-xfer", "box-ok", "box-failing-sub",
 }
 
@@ -186,6 +186,9 @@ func (w *World) mkMenu() {
 	t["create-ok"] = node.Tx(node.TxSpec{Type: params.CreateContractTx, From: U1, Data: InitCode(RtCounter), Exp: Exp, Amount: node.Lemo(1)})
 	t["create-revert"] = node.Tx(node.TxSpec{Type: params.CreateContractTx, From: U1, Data: InitRevert, Exp: Exp, Amount: node.Lemo(1)})
 	t["create-oog"] = node.Tx(node.TxSpec{Type: params.CreateContractTx, From: U1, Data: InitCode(RtCounter), Exp: Exp, GasLimit: 54000})
+	// value-carrying creation whose constructor succeeds but whose gas limit cannot pay the code deposit
+	// (intrinsic 54320 + constructor < 55400 < + 15 bytes x 200): fails with the value back at the sender
+	t["create-oog-deposit"] = node.Tx(node.TxSpec{Type: params.CreateContractTx, From: U1, Data: InitCode(RtCounter), Exp: Exp, Amount: node.Lemo(1), GasLimit: 55400})
 	t["vote-d0"] = node.Vote(U0, node.Deputy(0).Addr, Exp)
 	t["vote-c1"] = node.Vote(U0, Cand1.Addr, Exp)
 	t["register-u1-poor"] = node.Register(U1, params.MinCandidateDeposit, node.CandidateProfile(U1, "7101"), Exp) // cannot afford the deposit
